@@ -34,7 +34,7 @@ def generate(seed, num, depth=160):
         try:
             r = subprocess.run(["tlc", "-workers", "1", "-simulate", "num=%d" % num, "-depth", str(depth), "-seed",
                                 str(seed + ci), "-metadir", os.path.join(wd, "md%d" % ci), "-cleanup", "-noGenerateSpecTE",
-                                "-config", os.path.basename(cfg), "MCCommGen.tla"], cwd=SPEC, stdout=subprocess.PIPE,
+                                "-config", os.path.basename(cfg), "MCCommGen.tla"], cwd=SPEC, env=dict(os.environ, JAVA_TOOL_OPTIONS="-Djava.io.tmpdir=" + wd), stdout=subprocess.PIPE,
                                stderr=subprocess.STDOUT, text=True, timeout=600)
         finally:
             os.unlink(cfg)
